@@ -1,12 +1,14 @@
 package main
 
 import (
+	"encoding/hex"
 	"encoding/json"
 	"flag"
 	"fmt"
 	"os"
 	"path/filepath"
 	"runtime"
+	"runtime/pprof"
 	"strings"
 	"time"
 )
@@ -19,6 +21,11 @@ func main() {
 	switch os.Args[1] {
 	case "run":
 		cmdRun(os.Args[2:])
+	case "bech32":
+		for _, h := range os.Args[3:] {
+			b, _ := hex.DecodeString(h)
+			fmt.Println(h, bech32Encode(os.Args[2], b))
+		}
 	case "check":
 		os.Exit(cmdCheck(os.Args[2:]))
 	default:
@@ -43,6 +50,7 @@ type runOpts struct {
 	debug    bool
 	solver   string
 	solverMs int
+	maxPaths int
 }
 
 func loadSpec(path string) (*Spec, error) {
@@ -92,6 +100,9 @@ func runSpec(o runOpts) (*RunResult, *Spec, error) {
 		if tc, ok := h.Tiers[o.tier]; ok && tc.SolverMs > 0 && tc.SolverMs > w.solverMs {
 			w.solverMs = tc.SolverMs
 		}
+		if o.maxPaths > 0 {
+			hh.MaxPaths = o.maxPaths
+		}
 		hs = append(hs, hh)
 	}
 	rr := w.Explore(hs, o.workers)
@@ -102,6 +113,11 @@ func runSpec(o runOpts) (*RunResult, *Spec, error) {
 }
 
 func cmdRun(args []string) {
+	if pf := os.Getenv("SYMX_CPUPROFILE"); pf != "" {
+		f, _ := os.Create(pf)
+		pprof.StartCPUProfile(f)
+		defer pprof.StopCPUProfile()
+	}
 	fs := flag.NewFlagSet("run", flag.ExitOnError)
 	var o runOpts
 	fs.StringVar(&o.spec, "spec", "", "spec.json")
@@ -112,6 +128,7 @@ func cmdRun(args []string) {
 	fs.BoolVar(&o.debug, "debug", false, "debug")
 	fs.StringVar(&o.solver, "solver", "z3-new", "solver binary")
 	fs.IntVar(&o.solverMs, "solver-ms", 20000, "per-query timeout")
+	fs.IntVar(&o.maxPaths, "max-paths", 0, "cap on paths per harness (debug)")
 	fs.Parse(args)
 	rr, _, err := runSpec(o)
 	if err != nil {
